@@ -50,6 +50,10 @@ pub struct Cycle {
     pub targets: u8,
     /// targets version listed in the snapshot; 0 = entry dropped
     pub listed: u8,
+    /// 0: targets.json is signed with the targets keys of the newest root (normal). r > 0: with the
+    /// targets keys of root r (<= newest): a file from before a targets-key change, replayed as is
+    #[serde(default)]
+    pub targets_signed_as_of_root: u8,
 }
 
 #[derive(Clone, Debug, Serialize, Deserialize, PartialEq, Eq)]
@@ -128,6 +132,8 @@ struct Done {
     newest: usize,
     v: [u64; 4], // ts, snap, targets, listed
     err: String,
+    /// the cycle offers a file that is not signed by currently authorized keys
+    must_fail: bool,
 }
 
 pub fn prop_with(case: &Case, known_stale: bool, known_root: bool) -> Outcome {
@@ -148,7 +154,19 @@ pub fn prop_with(case: &Case, known_stale: bool, known_root: bool) -> Outcome {
         s.listed_targets_version = Some(listed.max(1));
         s.targets = vec![("a.txt".into(), b"a".to_vec())];
         let drop_listing = listed == 0;
-        let built = if drop_listing {
+        let signer_root = if c.targets_signed_as_of_root == 0 { newest } else { (c.targets_signed_as_of_root as usize).clamp(1, newest) };
+        let stale_signers = role_at(2, signer_root, case).keys.clone();
+        let newest_role = role_at(2, newest, case);
+        let stale_rejected = (stale_signers.iter().filter(|k| newest_role.keys.contains(k)).count() as u64) < newest_role.threshold;
+        let built = if signer_root != newest && !drop_listing {
+            s.build_with(&|role, _signed, canon| {
+                if role == "targets" {
+                    Some(stale_signers.iter().map(|k| forge::sig_entry(crate::keys::key(*k), canon)).collect())
+                } else {
+                    None
+                }
+            })
+        } else if drop_listing {
             s.build_full(
                 &|role, signed| {
                     if role == "snapshot" {
@@ -178,6 +196,7 @@ pub fn prop_with(case: &Case, known_stale: bool, known_root: bool) -> Outcome {
                         listed_seen,
                     ],
                     err: String::new(),
+                    must_fail: false,
                 }
             }
             Err(e) => Done {
@@ -187,8 +206,18 @@ pub fn prop_with(case: &Case, known_stale: bool, known_root: bool) -> Outcome {
                 newest,
                 v: [s.ts_version, s.snap_version, s.targets_version, if drop_listing { 0 } else { listed }],
                 err: format!("{:?}: {e}", classify(e)),
+                must_fail: signer_root != newest && stale_rejected,
             },
         };
+        if d.ok && signer_root != newest && stale_rejected && !drop_listing {
+            o.fail(format!(
+                "cycle {ci}: succeeded although targets.json carries only signatures by the targets keys of root v{signer_root}, which the trusted root v{newest} no longer authorizes (a file stored by an earlier cycle must not be trusted without checking its signatures against the current root)"
+            ));
+            return o;
+        }
+        if signer_root != newest && stale_rejected {
+            o.label("stale-signed-targets-offered");
+        }
         if d.ok {
             // the repository object must report what was served
             let served = [s.ts_version, s.snap_version, s.targets_version, listed];
@@ -281,7 +310,7 @@ pub fn prop_with(case: &Case, known_stale: bool, known_root: bool) -> Outcome {
     for k in 0..done.len() {
         let c = &done[k];
         let consistent_files = c.v[2] == c.v[3];
-        if !consistent_files {
+        if !consistent_files || c.must_fail {
             continue;
         }
         let newer_than_all = (0..k).all(|j| (0..4).all(|r| c.v[r] >= done[j].v[r]) && c.newest >= done[j].newest);
@@ -330,8 +359,8 @@ fn chg() -> impl Strategy<Value = Chg> {
 }
 
 fn cycle() -> impl Strategy<Value = Cycle> {
-    (1u8..=3, any::<u16>(), 1u8..=3, 1u8..=3, 1u8..=3, prop_oneof![1 => Just(0u8), 12 => 1u8..=3], prop::bool::weighted(0.75))
-        .prop_map(|(newest_root, shipped, ts, snap, targets, listed, tie)| Cycle {
+    (1u8..=3, any::<u16>(), 1u8..=3, 1u8..=3, 1u8..=3, prop_oneof![1 => Just(0u8), 12 => 1u8..=3], prop::bool::weighted(0.75), prop_oneof![6 => Just(0u8), 1 => 1u8..=3])
+        .prop_map(|(newest_root, shipped, ts, snap, targets, listed, tie, targets_signed_as_of_root)| Cycle {
             newest_root,
             shipped,
             ts,
@@ -339,6 +368,7 @@ fn cycle() -> impl Strategy<Value = Cycle> {
             targets,
             // most cycles are internally consistent (listed == targets) so that they can succeed
             listed: if tie && listed != 0 { targets } else { listed },
+            targets_signed_as_of_root,
         })
 }
 
@@ -370,6 +400,7 @@ fn grid() -> Vec<Case> {
                     snap: 1 + (x / 3 % 3) as u8,
                     targets: 1 + (x / 9 % 3) as u8,
                     listed: 1 + (x / 27 % 3) as u8,
+                    targets_signed_as_of_root: 0,
                 };
                 v.push(Case { consistent, root2: none, root3: none, cycles: vec![mk(a), mk(b)] });
             }
@@ -415,6 +446,7 @@ pub fn check(ctx: &Ctx) -> Vec<PartReport> {
                 ("rollback-allowed-after-key-change", n2 as u64 / 100),
                 ("key-change-between-shipped-and-newest", n2 as u64 / 20),
                 ("rollback-refused", n2 as u64 / 20),
+                ("stale-signed-targets-offered", n2 as u64 / 100),
             ],
         },
     ));
@@ -430,7 +462,7 @@ pub fn replay(ctx: &Ctx, _part: &str, case: &Value) -> Outcome {
 /// Directed probes for the two listed findings.
 pub fn probes(_ctx: &Ctx) -> Vec<super::Probe> {
     let none = (Chg::None, Chg::None, Chg::None);
-    let cyc = |newest: u8, shipped_one: bool, v: u8| Cycle { newest_root: newest, shipped: if shipped_one { 0 } else { u16::MAX }, ts: v, snap: v, targets: 1, listed: 1 };
+    let cyc = |newest: u8, shipped_one: bool, v: u8| Cycle { newest_root: newest, shipped: if shipped_one { 0 } else { u16::MAX }, ts: v, snap: v, targets: 1, listed: 1, targets_signed_as_of_root: 0 };
     // (a) shipped root 1, root 2 replaces the timestamp key; three cycles all trusting root 2
     let a = Case { consistent: false, root2: (Chg::Replace, Chg::None, Chg::None), root3: none, cycles: vec![cyc(2, true, 3), cyc(2, true, 3), cyc(2, true, 2)] };
     let oa = prop_with(&a, false, false);
